@@ -38,23 +38,23 @@ const preambleArray = `(set-option :produce-models true)
 (define-fun sat_ ((l SL) (i Int)) Str (select (items l) i))
 (define-fun appendbyte ((s Str) (b Int)) Str (mkstr (store (chars s) (slen s) b) (+ (slen s) 1)))
 (define-fun appendstr ((l SL) (s Str)) SL (mksl (store (items l) (sllen l) s) (+ (sllen l) 1)))
-(define-fun emptysl () SL (mksl ((as const (Array Int Str)) emptystr) 0))
+(define-fun emptysl () SL (mksl ((as const (Array Int Str)) (mkstr ((as const (Array Int Int)) 0) 0)) 0))
 (define-fun emptyil () IL (mkil ((as const (Array Int Int)) 0) 0))
-(declare-fun concat (Str Str) Str)
-(assert (forall ((a Str) (b Str)) (! (and (= (slen (concat a b)) (+ (slen a) (slen b)))
-  (forall ((i Int)) (! (and (=> (and (<= 0 i) (< i (slen a))) (= (select (chars (concat a b)) i) (select (chars a) i)))
-                            (=> (and (<= (slen a) i) (< i (+ (slen a) (slen b)))) (= (select (chars (concat a b)) i) (select (chars b) (- i (slen a)))))
-                            (=> (or (< i 0) (>= i (+ (slen a) (slen b)))) (= (select (chars (concat a b)) i) 0)))
-     :pattern ((select (chars (concat a b)) i))))
-  (forall ((j Int)) (! (=> (and (<= 0 j) (< j (slen b))) (= (select (chars (concat a b)) (+ (slen a) j)) (select (chars b) j))) :pattern ((select (chars b) j)))))
-  :pattern ((concat a b)))))
-(declare-fun substr (Str Int Int) Str)
-(assert (forall ((s Str) (lo Int) (hi Int)) (! (and (= (slen (substr s lo hi)) (- hi lo))
-  (forall ((i Int)) (! (and (=> (and (<= 0 i) (< i (- hi lo))) (= (select (chars (substr s lo hi)) i) (select (chars s) (+ lo i))))
-                            (=> (or (< i 0) (>= i (- hi lo))) (= (select (chars (substr s lo hi)) i) 0)))
-     :pattern ((select (chars (substr s lo hi)) i))))
-  (forall ((j Int)) (! (=> (and (<= lo j) (< j hi)) (= (select (chars (substr s lo hi)) (- j lo)) (select (chars s) j))) :pattern ((select (chars s) j)))))
-  :pattern ((substr s lo hi)))))
+(declare-fun scat (Str Str) Str)
+(assert (forall ((a Str) (b Str)) (! (and (= (slen (scat a b)) (+ (slen a) (slen b)))
+  (forall ((i Int)) (! (and (=> (and (<= 0 i) (< i (slen a))) (= (select (chars (scat a b)) i) (select (chars a) i)))
+                            (=> (and (<= (slen a) i) (< i (+ (slen a) (slen b)))) (= (select (chars (scat a b)) i) (select (chars b) (- i (slen a)))))
+                            (=> (or (< i 0) (>= i (+ (slen a) (slen b)))) (= (select (chars (scat a b)) i) 0)))
+     :pattern ((select (chars (scat a b)) i))))
+  (forall ((j Int)) (! (=> (and (<= 0 j) (< j (slen b))) (= (select (chars (scat a b)) (+ (slen a) j)) (select (chars b) j))) :pattern ((select (chars b) j)))))
+  :pattern ((scat a b)))))
+(declare-fun ssub (Str Int Int) Str)
+(assert (forall ((s Str) (lo Int) (hi Int)) (! (and (= (slen (ssub s lo hi)) (- hi lo))
+  (forall ((i Int)) (! (and (=> (and (<= 0 i) (< i (- hi lo))) (= (select (chars (ssub s lo hi)) i) (select (chars s) (+ lo i))))
+                            (=> (or (< i 0) (>= i (- hi lo))) (= (select (chars (ssub s lo hi)) i) 0)))
+     :pattern ((select (chars (ssub s lo hi)) i))))
+  (forall ((j Int)) (! (=> (and (<= lo j) (< j hi)) (= (select (chars (ssub s lo hi)) (- j lo)) (select (chars s) j))) :pattern ((select (chars s) j)))))
+  :pattern ((ssub s lo hi)))))
 (declare-fun slsub (SL Int Int) SL)
 (assert (forall ((s SL) (lo Int) (hi Int)) (! (and (= (sllen (slsub s lo hi)) (- hi lo))
   (forall ((i Int)) (! (and (=> (and (<= 0 i) (< i (- hi lo))) (= (select (items (slsub s lo hi)) i) (select (items s) (+ lo i))))
@@ -200,6 +200,32 @@ func solve(text string, solvers []solverSpec, timeout time.Duration) SolverResul
 		last.Output = strings.Join(errs, "\n")
 	}
 	return last
+}
+
+// solve2 races the solvers on two renderings of the same obligation (full and light);
+// "unsat" on either discharges it; "sat" is only trusted on the full text.
+func solve2(full, light string, solvers []solverSpec, timeout time.Duration) SolverResult {
+	type rr struct {
+		r    SolverResult
+		full bool
+	}
+	ch := make(chan rr, 2)
+	go func() { ch <- rr{solve(full, solvers, timeout), true} }()
+	go func() { ch <- rr{solve(light, solvers, timeout), false} }()
+	var fullRes SolverResult
+	for i := 0; i < 2; i++ {
+		x := <-ch
+		if x.r.Status == "unsat" {
+			if !x.full {
+				x.r.Solver += "(light)"
+			}
+			return x.r
+		}
+		if x.full {
+			fullRes = x.r
+		}
+	}
+	return fullRes
 }
 
 // runParallel runs f(i) for i in [0,n) on up to `workers` goroutines.
